@@ -4,6 +4,7 @@ package main
 // the child is SIGKILLed by strace on entry to that call, then the surviving directory is judged.
 
 import (
+	"syscall"
 	"encoding/json"
 	"fmt"
 	"os"
@@ -24,7 +25,8 @@ type E3Workload struct {
 	Words    int    `json:"words"`
 	Seed     uint64 `json:"seed"`
 	FailKind int    `json:"fail_kind"`
-	PreState string `json:"pre_state"` // "empty", "dir-exists", "older-file"
+	PreState string `json:"pre_state"` // "empty", "dir-exists", "crashed-save-leftover"
+	TmpOtherFS bool `json:"tmpdir_other_fs"` // the child's TMPDIR lives on another file system (tmpfs)
 }
 
 type E3Report struct {
@@ -145,6 +147,11 @@ func (b *build) e3Child(dir, mode string, wl E3Workload, out string, straceArgs 
 	}
 	cmd.Dir = dir
 	cmd.Env = append(os.Environ(), "VERIF_E3="+mode, "VERIF_E3_WORKLOAD="+string(wj), "VERIF_E3_OUT="+out, "GOMAXPROCS=2")
+	if wl.TmpOtherFS {
+		if d := otherFSTmp(); d != "" {
+			cmd.Env = append(cmd.Env, "TMPDIR="+d)
+		}
+	}
 	o, err := cmd.CombinedOutput()
 	code := 0
 	if err != nil {
@@ -159,6 +166,23 @@ func (b *build) e3Child(dir, mode string, wl E3Workload, out string, straceArgs 
 // prepState creates the directory a save starts from. "crashed-save-leftover": an earlier, LONGER save of the same test
 // was killed right before its rename, so its complete temp file is still lying around (kept in `leftover`, a template
 // directory made once per workload, and copied).
+var otherFSOnce sync.Once
+var otherFSDir string
+
+// otherFSTmp: a directory on a file system other than the scratch root ("" if there is none).
+func otherFSTmp() string {
+	otherFSOnce.Do(func() {
+		var a, b syscall.Stat_t
+		if syscall.Stat(os.TempDir(), &a) != nil || syscall.Stat("/dev/shm", &b) != nil || a.Dev == b.Dev {
+			return
+		}
+		if d, err := os.MkdirTemp("/dev/shm", "vcheck-e3-tmp-"); err == nil {
+			otherFSDir = d
+		}
+	})
+	return otherFSDir
+}
+
 func prepState(dir string, wl E3Workload, leftover string) error {
 	if err := os.MkdirAll(dir, 0o755); err != nil {
 		return err
@@ -444,7 +468,7 @@ func e3GenWorkload(seed uint64, idx int, tier string) E3Workload {
 	}
 	kinds := []int{1, 6, 4, 10} // Fatalf, panic(string), Errorf, nil-map-write
 	return E3Workload{Name: names[next(len(names))], Lines: lines, LineLen: 1 + next(200), Words: []int{0, 1, 8, 64}[next(4)], Seed: 1 + uint64(next(1<<30)),
-		FailKind: kinds[next(len(kinds))], PreState: []string{"empty", "dir-exists", "crashed-save-leftover"}[next(3)]}
+		FailKind: kinds[next(len(kinds))], PreState: []string{"empty", "dir-exists", "crashed-save-leftover"}[next(3)], TmpOtherFS: next(4) == 0}
 }
 
 type e3Replay struct {
@@ -498,6 +522,9 @@ func runE3(prop string, cfg *propCfg, tier string, seed uint64) int {
 	}
 	wg.Wait()
 	searchS := time.Since(start).Seconds() - buildS
+	if otherFSDir != "" {
+		defer os.RemoveAll(otherFSDir)
+	}
 
 	findings := loadFindings()
 	points, killed, discarded := 0, 0, 0
